@@ -31,7 +31,7 @@ type c15Case struct {
 }
 
 func genC15(r *rand.Rand) c15Case {
-	cs := c15Case{Entry: r.IntN(4), Comp: vk.Pick(r, "retry", "retry", "hedge", "none", "retry>timeout"), FailN: r.IntN(3), Cancel: vk.Pick(r, "none", "none", "parked", "delay", "racing", "racing", "after-done"), Micro: int64(r.IntN(300)) * 1000}
+	cs := c15Case{Entry: r.IntN(4), Comp: vk.Pick(r, "retry", "retry", "hedge", "none", "retry>timeout"), FailN: r.IntN(3), Cancel: vk.Pick(r, "none", "none", "parked", "delay", "racing", "racing", "after-done", "in-ondone"), Micro: int64(r.IntN(300)) * 1000}
 	if cs.Comp == "none" && (cs.Cancel == "parked" || cs.Cancel == "delay") {
 		cs.Comp = "retry" // the ErrExecutionCanceled clause is stated for executions under a retry or hedge policy
 	}
@@ -72,14 +72,14 @@ func checkC15(rep *vk.Report) {
 	}
 	installYields(rep.Seed)
 	defer failsafe.VerifSetYield(nil)
-	nA := scale(rep, 6000, 500000)
+	nA := scale(rep, 6000, 150000)
 	vk.Parallel(nA, 16, func(idx int) {
 		if rep.Skip(idx) {
 			return
 		}
 		c15Scenario(rep, idx)
 	})
-	nB := scale(rep, 3000, 200000)
+	nB := scale(rep, 3000, 60000)
 	vk.Parallel(nB, 16, func(i int) {
 		idx := nA + i
 		if rep.Skip(idx) {
@@ -88,7 +88,7 @@ func checkC15(rep *vk.Report) {
 		c15Differential(rep, idx)
 	})
 	failsafe.VerifSetYield(nil)
-	cancelStress(rep, "C15", 50000000, scale(rep, 30000, 1500000))
+	cancelStress(rep, "C15", 50000000, scale(rep, 30000, 500000))
 	reportYields(rep)
 	rep.Require("readers_total", 1000)
 	rep.Require("cancel_while_parked", 50)
@@ -146,13 +146,19 @@ func c15Scenario(rep *vk.Report, idx int) {
 	var evRes int
 	var evErr error
 	var doneEvents atomic.Int64
+	var ar failsafe.ExecutionResult[int]
+	arReady := make(chan struct{})
 	ex := failsafe.NewExecutor[int](pols...).OnDone(func(e failsafe.ExecutionDoneEvent[int]) {
 		evRes, evErr = e.Result, e.Error
 		doneEvents.Add(1)
 		runtime.Gosched()
+		if cs.Cancel == "in-ondone" {
+			// the execution has completed and announced its result: a Cancel from now on must not change what readers get
+			<-arReady
+			ar.Cancel()
+		}
 		onDoneExit.Store(c15Seq.Add(1))
 	})
-	var ar failsafe.ExecutionResult[int]
 	switch cs.Entry {
 	case 0:
 		ar = ex.RunAsync(func() error { _, e := body(nil); return e })
@@ -163,6 +169,7 @@ func c15Scenario(rep *vk.Report, idx int) {
 	default:
 		ar = ex.GetWithExecutionAsync(body)
 	}
+	close(arReady)
 	var bad atomic.Pointer[string]
 	fail := func(sig, msg string) {
 		s := sig + "\x00" + msg
